@@ -21,6 +21,8 @@ import (
 	"github.com/foxcpp/maddy/framework/config"
 	"github.com/foxcpp/maddy/internal/limits"
 	"github.com/foxcpp/maddy/internal/limits/limiters"
+	"golang.org/x/net/idna"
+	"golang.org/x/text/unicode/norm"
 )
 
 // Lim is one directive: concurrency N (Sem) or rate N <1h>.
@@ -792,6 +794,253 @@ func StripKeyTokens(ops []string) []string {
 	var out []string
 	for _, o := range ops {
 		if !strings.HasPrefix(o, "k.") {
+			out = append(out, o)
+		}
+	}
+	return out
+}
+
+// ---- domain spellings (strengthening round 7) ----
+//
+// Op lines of the remote-target harness name DOMAIN SPELLINGS by id (sender domain of Start, recipient domain of
+// AddRcpt). One domain has many spellings; which string the code hands to the limits at each place is NOT assumed
+// (the harness observes it, see c11DomKeys in the remote harness, and hands it to the model as j. tokens).
+//
+//	0            the empty sender
+//	1..99        d<n>.example (as before)
+//	100b+v       variant v of base domain b (1 bücher.example, 2 почта.испытание, 3 shop.example, 4 例え.jp):
+//	             v = 0 U-label, lower case, NFC (the form endpoint/smtp hands over: address.CleanDomain)
+//	                 1 A-label, lower case            2 U-label, other case       3 U-label with a trailing dot
+//	                 4 A-label, upper case            5 U-label in NFD            6 A-label with a trailing dot
+//	             (variants that would repeat another spelling of the base do not exist)
+//	500..512     domains without a reachable MX: bad<n>.example; 508 = bäd508.example, 509 = its A-label
+var domBases = map[int][3]string{
+	1: {"b\u00fccher.example", "B\u00fccher.Example", "bu\u0308cher.example"},
+	2: {"\u043f\u043e\u0447\u0442\u0430.\u0438\u0441\u043f\u044b\u0442\u0430\u043d\u0438\u0435", "\u041f\u043e\u0447\u0442\u0430.\u0418\u0441\u043f\u044b\u0442\u0430\u043d\u0438\u0435", ""},
+	3: {"shop.example", "Shop.EXAMPLE", ""},
+	4: {"\u4f8b\u3048.jp", "", ""},
+}
+
+func toA(s string) string {
+	a, err := idna.ToASCII(s)
+	if err != nil {
+		return s
+	}
+	return a
+}
+
+// Dom is the spelling with the given id ("" also for ids that do not exist, see DomOK).
+func Dom(id int) string {
+	switch {
+	case id <= 0:
+		return ""
+	case id < 100:
+		return "d" + strconv.Itoa(id) + ".example"
+	case id == 508:
+		return "b\u00e4d508.example"
+	case id == 509:
+		return toA("b\u00e4d508.example")
+	case id >= 500 && id < 600:
+		return "bad" + strconv.Itoa(id) + ".example"
+	}
+	b, ok := domBases[id/100]
+	if !ok {
+		return ""
+	}
+	u := b[0]
+	a := toA(u)
+	switch id % 100 {
+	case 0:
+		return u
+	case 1:
+		if a != u {
+			return a
+		}
+	case 2:
+		return b[1]
+	case 3:
+		return u + "."
+	case 4:
+		if up := strings.ToUpper(a); up != a {
+			return up
+		}
+	case 5:
+		return b[2]
+	case 6:
+		if a != u {
+			return a + "."
+		}
+	}
+	return ""
+}
+
+// DomOK: the id names a spelling of the table.
+func DomOK(id int) bool { return id == 0 || Dom(id) != "" }
+
+// DomReachable: the harness's DNS has an MX for (every form of) the spelling.
+func DomReachable(id int) bool { return DomOK(id) && id > 0 && !(id >= 500 && id < 600) }
+
+// AllDomIDs lists the spelling ids of the table in ascending order (reachable ones, then 500..502, 508, 509).
+func AllDomIDs() []int {
+	var ids []int
+	for i := 1; i <= 12; i++ {
+		ids = append(ids, i)
+	}
+	for b := 1; b <= 4; b++ {
+		for v := 0; v <= 6; v++ {
+			if Dom(100*b+v) != "" {
+				ids = append(ids, 100*b+v)
+			}
+		}
+	}
+	return append(ids, 500, 501, 502, 508, 509)
+}
+
+// DomClass names the kind of spelling (for the recorded distribution).
+func DomClass(id int) string {
+	switch {
+	case id == 0:
+		return "empty"
+	case id == 508:
+		return "bad-u"
+	case id == 509:
+		return "bad-a"
+	case id < 100 || id >= 500:
+		return "ascii"
+	}
+	ascii := toA(domBases[id/100][0]) == domBases[id/100][0]
+	n := [...]string{"u", "a", "ucase", "udot", "acase", "nfd", "adot"}[id%100]
+	if ascii {
+		n = "ascii-" + n
+	}
+	return n
+}
+
+// DomForms: the spelling and the results of the usual normalisations of it (A-label, U-label, lower case, NFC,
+// with and without the trailing dot) - what a DNS zone table must know so that a look-up succeeds whichever
+// form the code asks for, and the candidate keys the key observation watches.
+func DomForms(id int) []string {
+	s := Dom(id)
+	if s == "" {
+		return nil
+	}
+	seen := map[string]bool{}
+	var out []string
+	add := func(x string) {
+		for _, y := range []string{x, strings.TrimSuffix(x, "."), strings.TrimSuffix(x, ".") + "."} {
+			if y != "" && y != "." && !seen[y] {
+				seen[y] = true
+				out = append(out, y)
+			}
+		}
+	}
+	add(s)
+	for i := 0; i < len(out) && i < 64; i++ {
+		x := out[i]
+		add(strings.ToLower(x))
+		add(norm.NFC.String(x))
+		if a, err := idna.ToASCII(x); err == nil {
+			add(a)
+		}
+		if a, err := idna.Lookup.ToASCII(x); err == nil {
+			add(a)
+		}
+		if u, err := idna.ToUnicode(x); err == nil {
+			add(u)
+		}
+		if u, err := idna.ToUnicode(strings.ToLower(x)); err == nil {
+			add(u)
+		}
+	}
+	return out
+}
+
+// DomPool draws n spelling ids: sometimes plain ASCII only (1..n, as before round 7), otherwise a mixture in
+// which the U-label form of an internationalised domain, other spellings of the same domain (A-label, case,
+// trailing dot, NFD), a second domain and a plain ASCII one occur.
+func DomPool(intn func(int) int, n int) []int {
+	pool := make([]int, 0, n)
+	if intn(100) < 35 {
+		for i := 1; i <= n; i++ {
+			pool = append(pool, i)
+		}
+		return pool
+	}
+	has := func(x int) bool {
+		for _, y := range pool {
+			if y == x {
+				return true
+			}
+		}
+		return false
+	}
+	b1 := 1 + intn(4)
+	b2 := 1 + (b1+intn(3))%4
+	for tries := 0; len(pool) < n && tries < 200; tries++ {
+		var x int
+		switch c := intn(100); {
+		case c < 30:
+			x = 100 * b1 // the form the endpoint hands over
+		case c < 60:
+			x = 100*b1 + 1 + intn(6)
+		case c < 75:
+			x = 100*b2 + intn(7)
+		default:
+			x = 1 + intn(3)
+		}
+		if Dom(x) != "" && !has(x) {
+			pool = append(pool, x)
+		}
+	}
+	for i := 1; len(pool) < n; i++ {
+		if !has(i) {
+			pool = append(pool, i)
+		}
+	}
+	return pool
+}
+
+// DomSiblings: every spelling of base domain b (1..4).
+func DomSiblings(b int) []int {
+	var ids []int
+	for v := 0; v <= 6; v++ {
+		if Dom(100*b+v) != "" {
+			ids = append(ids, 100*b+v)
+		}
+	}
+	return ids
+}
+
+// SetUsers reads key -> users of one bucket table of the group ("ip", "source", "dest"); nil when the scope is off.
+func SetUsers(g *limits.Group, set string) map[string]int {
+	p := field(reflect.ValueOf(g).Elem(), set)
+	if p.IsNil() {
+		return nil
+	}
+	out := map[string]int{}
+	bs := p.Elem()
+	lck := field(bs, "mLck").Addr().Interface().(interface {
+		Lock()
+		Unlock()
+	})
+	lck.Lock()
+	defer lck.Unlock()
+	it := bs.FieldByName("m").MapRange()
+	for it.Next() {
+		n := 0
+		if u := it.Value().Elem().FieldByName("users"); u.IsValid() {
+			n = int(u.Int())
+		}
+		out[it.Key().String()] = n
+	}
+	return out
+}
+
+// StripTokens removes the observed-key tokens (k. and j.: they are re-observed on every run).
+func StripTokens(ops []string) []string {
+	var out []string
+	for _, o := range ops {
+		if !strings.HasPrefix(o, "k.") && !strings.HasPrefix(o, "j.") {
 			out = append(out, o)
 		}
 	}
